@@ -61,14 +61,15 @@ func RenderInstant(t time.Time, rng *rand.Rand) string {
 	lt := t.In(z)
 	var frac string
 	if t.Nanosecond() == 0 {
-		frac = []string{"", ".0", ".000", ".000000000"}[rng.Intn(4)]
+		// (RFC 3339 puts no limit on the number of fraction digits)
+		frac = []string{"", ".0", ".000", ".000000000", ".000000000000", ".00000000000000000000"}[rng.Intn(6)]
 	} else {
 		s := fmt.Sprintf("%09d", t.Nanosecond())
 		for len(s) > 1 && s[len(s)-1] == '0' {
 			s = s[:len(s)-1]
 		}
-		pad := []int{0, 2, 5, 8}[rng.Intn(4)]
-		for i := 0; i < pad && len(s) < 9; i++ {
+		pad := []int{0, 2, 5, 8, 11, 19}[rng.Intn(6)]
+		for i := 0; i < pad && len(s) < 20; i++ {
 			s += "0"
 		}
 		frac = "." + s
